@@ -607,7 +607,12 @@ def _shape_local(fn, l, depth, seen):
                     nm = "%s::%s" % (rv["adt"].split("::")[-1], rv["variant"]) if rv["adt"].split("::")[-1] != rv["variant"] else rv["variant"]
                     alts.append("%s{%s}" % (nm, ", ".join("%s: %s" % (f, shape(fn, o, depth - 1, seen)) for f, o in zip(rv["fields"], rv["ops"]))))
                 elif rv.get("ak") == "closure":
-                    alts.append("closure[%s]" % ", ".join(shape(fn, o, depth - 1, seen) for o in rv["ops"]))
+                    if _RESTRICT[0] is not None and rv.get("closure"):
+                        # path mode: keep the closure's identity (a parseable term)
+                        import json as _json
+                        alts.append("closure(%s)" % ", ".join([_json.dumps(rv["closure"])] + [shape(fn, o, depth - 1, seen) for o in rv["ops"]]))
+                    else:
+                        alts.append("closure[%s]" % ", ".join(shape(fn, o, depth - 1, seen) for o in rv["ops"]))
                 else:
                     alts.append("%s(%s)" % (rv.get("ak"), ", ".join(shape(fn, o, depth - 1, seen) for o in rv["ops"])))
             elif k == "repeat":
@@ -619,7 +624,15 @@ def _shape_local(fn, l, depth, seen):
             if any(_SHAPE_TRANSPARENT.search(x) for x in names) and n["args"]:
                 alts.append(shape(fn, n["args"][0], depth, seen))
             else:
-                alts.append("%s(%s)" % (short_name(names[-1] if names else "indirect"), ", ".join(shape(fn, a, depth - 1, seen) for a in n["args"])))
+                extra = []
+                if _RESTRICT[0] is not None and names and re.search(r"::try_(into|from)$", names[-1]):
+                    m = re.match(r"(?:core|std)::result::Result<([\w:]+),", (n.get("callee") or {}).get("output") or "")
+                    if m:
+                        extra = ['"%s"' % m.group(1)]
+                nm = short_name(names[-1] if names else "indirect")
+                if _RESTRICT[0] is not None and names and "{closure" in names[-1]:
+                    nm = "Fn::call"  # a direct call of a closure value: callee identity is in its first argument
+                alts.append("%s(%s)" % (nm, ", ".join([shape(fn, a, depth - 1, seen) for a in n["args"]] + extra)))
     if not alts:
         return "_%d" % l
     alts = sorted(set(alts))
